@@ -7,7 +7,7 @@ model/Multichain.v:c16_gain_check / c16_disc_check evaluated by vm_compute on th
 (exact rationals of the floats).
 
 Undiscounted certificate (found here, checked in Coq, origin irrelevant for soundness):
-  g' = exact gain of the returned policy (uniform on its support), by exact linear algebra on Fractions;
+  (g', h') = exact gain and bias of the returned policy (uniform on its support), by exact linear algebra on Fractions;
   w  = h_returned + M * g', M the least integer making the second dual family hold at non-gain-tight actions.
 Independent oracles, used for the violation search only: an exact, self-certifying multichain policy
 iteration on Fractions, and the multichain LP solved by scipy.optimize.linprog in the impl process.
@@ -36,8 +36,11 @@ PRE = """From Coq Require Import QArith List Bool.
 From MSDM Require Import base.Num base.NumInst model.MDP model.VI model.Multichain.
 Import ListNotations.
 Local Open Scope Q_scope.
-Definition chkg nS nA P R av ab ini gm g h Pi ig iv g' w dup dlo gt pt it :=
-  @c16_gain_check Q NumQ (mk_mdp nS nA P R av ab ini gm) (mk_mc g h Pi ig iv) (mk_gc g' w dup dlo gt pt it).
+Definition chkg nS nA P R av ab ini gm g h Pi ig iv g' w h' dup dlo gt pt it dt :=
+  let m := mk_mdp nS nA P R av ab ini gm in
+  let o := mk_mc g h Pi ig iv in
+  let c := mk_gc g' w h' dup dlo gt pt it in
+  (@c16_gain_check Q NumQ m o c, @c16_tight_check Q NumQ m o c dt).
 Definition chkd nS nA P R av ab ini gm g h Pi ig iv e1 e2 e3 e4 e5 :=
   @c16_disc_check Q NumQ (mk_mdp nS nA P R av ab ini gm) (mk_mc g h Pi ig iv) (mkDT e1 e2 e3 e4 e5).
 """
@@ -294,15 +297,16 @@ def prepare(case, res):
         upol = [[F(1, cnt[s]) if supp[s][a] else F(0) for a in range(nA)] for s in range(n)]
         gq, hq = eval_policy(Pa, Ra, upol)
     if gq is None:
-        gq = [F(0)] * n     # no exact gain available: the checker will (rightly) reject or not
-    dup = dlo = gt = 2 * band
+        gq, hq = [F(0)] * n, [F(0)] * n     # no exact evaluation available: the checker decides
+    dup = gt = 2 * band
+    dlo = F(0)                               # the evaluation equations of (g', h') hold exactly
     M = find_M(Pa, Ra, av, gq, h, dup)
     d["M"] = M
     w = [h[s] + (M if M is not None else 0) * gq[s] for s in range(n)]
-    d["gq"], d["w"] = gq, w
-    tol = [dup, dlo, gt, F(1, 10**12), tiny]
+    d["gq"], d["w"], d["hq"] = gq, w, hq
+    tol = [dup, dlo, gt, F(1, 10**12), tiny, 2 * band]
     d["tols"] = tol
-    d["term"] = "chkg %s %s %s %s %s" % (mt, ot, qlist(gq), qlist(w), " ".join(q(x) for x in tol))
+    d["term"] = "chkg %s %s %s %s %s %s" % (mt, ot, qlist(gq), qlist(w), qlist(hq), " ".join(q(x) for x in tol))
     return d
 
 
@@ -380,7 +384,8 @@ def run(ctx):
     stats = {"converged": 0, "not_converged": 0, "impl_raised": 0, "kinds": {}, "gammas": {},
              "undisc_nonconstant_gain": 0, "undisc_M_positive": 0, "undisc_nonzero_gain": 0,
              "undisc_with_terminal": 0, "undisc_pos_and_neg_rewards": 0, "stochastic_policy_rows": 0,
-             "not_converged_by_kind": {}, "lp_agrees": 0, "lp_compared": 0}
+             "not_converged_by_kind": {}, "lp_agrees": 0, "lp_compared": 0,
+             "undisc_support_tight_for_reported_bias": 0}
     distinct, prepared = set(), {}
     for i, (case, res) in enumerate(zip(cases, impl)):
         stats["kinds"][case["kind"]] = stats["kinds"].get(case["kind"], 0) + 1
@@ -401,7 +406,12 @@ def run(ctx):
         d = prepare(case, res)
         prepared[i] = d
         if d.get("nonfinite"):
-            ctx.violation("C16:nonfinite-result", {"case": case, "impl": out}, found=True)
+            # a converged result with nan/inf entries: the policy cannot be "evaluated exactly"
+            nanrow = any(x == "nan" for row in out["pi"] for x in row)
+            ctx.violation("C16:policy:nan-row" if nanrow else "C16:nonfinite-result",
+                          {"case": case, "impl": out, "state_list": res["state_list"], "action_list": res["action_list"],
+                           "failing_clause": {"clause": "converged result has a policy row of NaNs (no action is both a gain- and a bias-maximiser at 1e-10)"
+                                              if nanrow else "converged result has non-finite entries"}}, found=True)
             continue
         terms.append(d["term"])
         meta.append(i)
@@ -415,6 +425,11 @@ def run(ctx):
             continue
         nchk += 1
         undisc = d["gamma"] == 1
+        if undisc:
+            v, tight = v
+            # non-gating: every action of the support is gain-conserving and bias-tight for the reported
+            # bias (then EVERY policy inside the support attains the gain, C16_gain_attained_by_every_supported_policy)
+            stats["undisc_support_tight_for_reported_bias"] += int(bool(tight))
         names = GCLAUSES if undisc else DCLAUSES
         failed = [c for c, okv in zip(names, v) if not okv]
         if all(d["absorbing"]):
@@ -439,7 +454,7 @@ def run(ctx):
             why = search_failing(case, res, d)
             detail = {"case": case, "failed_clauses": failed, "impl": out,
                       "state_list": res["state_list"], "action_list": res["action_list"],
-                      "certificate": {k: [str(x) for x in d[k]] for k in ("gq", "w") if k in d},
+                      "certificate": {k: [str(x) for x in d[k]] for k in ("gq", "w", "hq") if k in d},
                       "M": str(d.get("M"))}
             if why:
                 detail["failing_clause"] = why
